@@ -155,7 +155,7 @@ class IntervalSizeSet(Contract):
                 else n1 == z3.If(a.value.t < n0, a.value.t, n0),
                 "kept_prefix": z3.ForAll([i], z3.Implies(z3.And(0 <= i, i < n1), z3.Select(it1, i) == z3.Select(it0, i))),
                 "wf_static": forest.wf_static(c1), "wf_parents": forest.wf_parents(c1),
-                "inv_region": forest.inv_region(c1)}
+                **forest.inv_region_parts(c1)}
 
 
 def register(reg):
